@@ -145,6 +145,14 @@ func verifDecodeOnce(input []byte, limit int) (msg string) {
 		if c.discarded != k {
 			return fmt.Sprintf("Decode(%q) consumed %d bytes, the request is %d bytes long", orig, c.discarded, k)
 		}
+		if want, known := codec.CommandStr2Type[strings.ToLower(string(args[0]))]; k <= limit {
+			switch {
+			case !known && m.Type != codec.UNKNOWN:
+				return fmt.Sprintf("Decode(%q): unsupported command typed %d", orig, m.Type)
+			case known && m.Type != want && m.Type != codec.ReqWrongArgumentsNumber:
+				return fmt.Sprintf("Decode(%q): supported command %q (compared case-insensitively) typed %d, table says %d", orig, args[0], m.Type, want)
+			}
+		}
 		if (m.Type == codec.ReqTooLarge) != (k > limit) {
 			return fmt.Sprintf("Decode(%q) with limit %d: type too-large=%v but the request's own size is %d", orig, limit, m.Type == codec.ReqTooLarge, k)
 		}
@@ -214,7 +222,7 @@ func verifDefinitelyInvalid(bs []byte) bool {
 var verifCorpus = []string{
 	"*0\r\n", "*-1\r\n", "*\r\n", "*1\r\n$4\r\nping\r\n", "*2\r\n$3\r\nget\r\n$-1\r\n", "*2\r\n$3\r\nget\r\n$01\r\na\r\n",
 	"*02\r\n$3\r\nget\r\n$1\r\na\r\n", "*9223372036854775808\r\n", "*18446744073709551618\r\n$3\r\nget\r\n$1\r\na\r\n",
-	"*2\r\n$3\r\nGET\r\n$1\r\na\r\n", "*3\n", "get a\r\n", "*2\r\n$3\r\nget\r\n$1\r\nab\r\n", "*2\r\n$3\r\nget\r\n$0\r\n\r\n",
+	"*2\r\n$3\r\nGET\r\n$1\r\na\r\n", "*2\r\n$3\r\ngET\r\n$1\r\na\r\n", "*2\r\n$3\r\nGeT\r\n$1\r\na\r\n", "*1\r\n$4\r\npiNG\r\n", "*3\r\n$4\r\nmGET\r\n$1\r\na\r\n$1\r\nb\r\n", "*3\n", "get a\r\n", "*2\r\n$3\r\nget\r\n$1\r\nab\r\n", "*2\r\n$3\r\nget\r\n$0\r\n\r\n",
 	"*2\r\n$3\r\nget\r\n$1\r\na\r\n*2\r\n$3\r\nget\r\n$1\r\nb\r\n", "*1\r\n$-1\r\n", "*1\r\n$\r\n", "$3\r\nget\r\n", "*1\r\n:1\r\n",
 	"*2000000000\r\n$3\r\nget\r\n", "*3\r\n$4\r\nmget\r\n$1\r\na\r\n$1\r\nb\r\n", "*3\r\n$4\r\nmset\r\n$1\r\na\r\n$1\r\nb\r\n",
 	"*2\r\n$3\r\ndel\r\n$1\r\na\r\n", "*4\r\n$4\r\neval\r\n$1\r\ns\r\n$1\r\n1\r\n$1\r\nk\r\n", "*1\r\n$4\r\nquit\r\n",
@@ -235,7 +243,7 @@ func TestVerifSearch_Decode(t *testing.T) {
 		}
 	}
 	rng := rand.New(rand.NewSource(verifSeed()))
-	cmds := []string{"get", "GET", "set", "mget", "del", "mset", "eval", "ping", "hset", "nosuch", "zrange", "auth"}
+	cmds := []string{"get", "GET", "gEt", "sET", "zRangeByScore", "set", "mget", "del", "mset", "eval", "ping", "hset", "nosuch", "zrange", "auth"}
 	iters := 4000
 	if verifThorough() {
 		iters = 60000
